@@ -22,13 +22,20 @@ SPEC = {
         "vs Model/CheckSwitch.v on generated configs x flags x entries (real finder) x command; each live check object is also compared with the generated tables",
         "inputs of the model not modelled here: isMatch verdicts (C09), comment parsing (C07/C10), regexp engine (oracle table computed with Go's regexp), HCL decoding",
         "harness export harness/shared_config/export_config.go repeats the construction half of GetChecksForEntry (ErrorCheck | baseRules ++ parseRule) to expose the parsed rules",
-        "oracle on the real binary: pint lint --json runs that differ by one --disabled/--enabled/checks{}/rule{disable}/--offline, multiset diff keyed by reporter",
+        "oracle on the real binary, fixed bases: pint lint --json runs (and one pint ci repository for rule/dependency) that differ from an all-kinds baseline by one "
+        "--disabled/--enabled/checks{}/rule{disable}/rule{enable}/--offline, for every check name; 26 of 27 reporters are triggered (promql/syntax excluded on purpose)",
+        "oracle on the real binary, random bases (harness/C08/c08_pairs.go): base = 1-3 unreachable prometheus servers with tags x locked or not x --disabled values "
+        "(names, String() forms name(server...), tag forms name(+tag), regexps) x --enabled x checks{disabled} x --offline x rule{enable}/rule{disable} blocks with and without match; "
+        "step = one more switch (--offline, -d N, -d 'N(server)', -d 'N(+tag)', checks{disabled+=N}, rule{disable=[N]}, -e E); run(base+step) must equal run(base) filtered by reporter "
+        "(server-bound instances: multiplicity of the per-server 'unable to run checks' problems); the expectation never looks at pint's switching code",
     ],
     "assumptions": [
         "wf_prules / names_are_reporters are premises of the logic theorems: proved for rules built from the registration table "
         "(C08_table_rules_wellformed) and re-checked on every correspondence case",
         "a problem emitted by a check carries that check's Reporter() (table column ct_sites, C08_table_hygiene)",
         "rule{enable=[N]} overrides a global disable (documented precedence) and is excluded by the premise of the problem-level theorem",
+        "from_table prs (premise of the --offline theorems): the parsed rules are built from registration sites of the generated table - what GetChecksForEntry builds for a healthy entry; "
+        "re-checked on every correspondence case (table_knows)",
     ],
 }
 
@@ -44,6 +51,9 @@ MANIFEST = {
             "isEnabled / parsedRule.isEnabled / GetChecksForEntry / SetDisabledChecks / DisableOnlineChecks: appending N to the disabled list, "
             "restricting the enabled list, inserting rule{disable=[N]} and --offline each equal FILTERING the previously enabled checks by "
             "reporter (always-enabled parse errors kept, documented rule{enable} precedence stated), every other check unchanged in order. "
+            "--offline and Meta().Online: for parsed rules built from the registration table, after --offline (alone or after any --disabled/--enabled flags: apply_flags) no check "
+            "with Meta().Online runs except through rule{enable}, and every offline check that ran before still runs; a check only runs on entries its block matches and whose state "
+            "is in its Meta().States; States are non-empty ChangeType constants and only ErrorCheck / rule/dependency declare Removed. "
             "Tied to the code by the translator and by differential execution of the real GetChecksForEntry/flag handling; the property as "
             "written is also executed on the real binary (paired runs per check name).",
     "note": "Coq 8.16.1 kernel+VM, no axioms; translator trusted for table extraction; match verdicts, comment parsing, regexp and HCL are inputs; "
